@@ -53,6 +53,8 @@ pub struct C14 {
     pub touch: bool,
     /// the source overwrites the unfilled part of the buffer it is given
     pub scribble: bool,
+    /// the source overrides `read_exact` with an all-or-nothing version (io::Cursor-like)
+    pub r_exact: bool,
 }
 
 const HOSTILE_MIN: u32 = 600 * 1024;
@@ -399,6 +401,7 @@ impl<'a> FamVisitor for RVisit<'a> {
         let core = SrcCore::new(stream.clone(), s.r_src.clone(), layout, budget, obs.clone());
         core.borrow_mut().allow_fatal = s.r_fatal;
         core.borrow_mut().scribble = s.scribble;
+        core.borrow_mut().exact_override = s.r_exact;
         let init = garbage(s.r_init_buf as usize);
         let init_cap = init.capacity();
         let mut reader = Reader::with_buffer(SimSource(core.clone()), init);
@@ -421,7 +424,10 @@ impl<'a> FamVisitor for RVisit<'a> {
             Ok(())
         };
         'drive: loop {
-            if s.r_rewrap_at == Some(i as u32) {
+            // (only while the source has not delivered a byte beyond that boundary: a reader that reads ahead may hold
+            // such bytes, and nothing in C14 says `into_parts` hands them back)
+            let boundary = if i == 0 { Some(0) } else { frame_ends.get(i - 1).copied() };
+            if s.r_rewrap_at == Some(i as u32) && boundary == Some(core.borrow().pos) {
                 // every completed read call leaves the reader at a frame boundary
                 let (src, buf) = reader.into_parts();
                 if i > 0 {
@@ -524,7 +530,10 @@ impl<'a> FamVisitor for RVisit<'a> {
                 (RRes::Io(k), _) if *k == std::io::ErrorKind::Interrupted => fail!("r_eintr_transparent", "{at}: Interrupted surfaced to the caller"),
                 (got, Exp::Eof) => fail!("r_truncation", "{at}: the stream ends inside frame {i} but read returned {}", clip(&format!("{got:?}"))),
                 (got, Exp::InvalidLen) => fail!("r_max_len", "{at}: frame {i} declares {} bytes > max_len {max_len} but read returned {}", payload_lens[i], clip(&format!("{got:?}"))),
-                (RRes::InvalidLen, _) => fail!("r_max_len", "{at}: InvalidLen although frame {i} declares {} bytes <= max_len {max_len}", payload_lens[i]),
+                (RRes::InvalidLen, _) => match payload_lens.get(i) {
+                    Some(l) => fail!("r_max_len", "{at}: InvalidLen although frame {i} declares {l} bytes <= max_len {max_len}"),
+                    None => fail!("r_clean_end", "{at}: InvalidLen although every frame was read and the stream ended at a boundary"),
+                },
                 (RRes::CleanEnd, e) => fail!("r_sequence", "{at}: clean end reported but the stream still holds {} (lost)", clip(&format!("{e:?}"))),
                 (got, Exp::CleanEnd) => fail!("r_clean_end", "{at}: all frames were read and the stream ended at a boundary, but read returned {}", clip(&format!("{got:?}"))),
                 (RRes::Io(k), _) if *k == std::io::ErrorKind::UnexpectedEof => fail!("r_sequence", "{at}: unexpected-eof although frame {i} is complete in the stream"),
@@ -596,6 +605,7 @@ impl Scenario for C14 {
             .set("r_rewrap_at", self.r_rewrap_at)
             .set("touch", self.touch)
             .set("scribble", self.scribble)
+            .set("r_exact", self.r_exact)
     }
     fn from_json(j: &Json) -> Result<Self, String> {
         let u = |k: &str| j.get(k).and_then(|c| c.as_u64()).unwrap_or(0);
@@ -620,6 +630,7 @@ impl Scenario for C14 {
             r_rewrap_at: j.get("r_rewrap_at").and_then(|c| c.as_u64()).map(|c| c as u32),
             touch: b("touch"),
             scribble: b("scribble"),
+            r_exact: b("r_exact"),
         })
     }
     fn run(&self, obs: &mut Obs) -> Result<(), Violation> {
@@ -694,6 +705,7 @@ impl Scenario for C14 {
         reset!(r_rewrap_at, None);
         reset!(touch, false);
         reset!(scribble, false);
+        reset!(r_exact, false);
         if self.family != Ty::Str && self.family != Ty::U64 {
             for t in [Ty::U64, Ty::Str] {
                 let items: Vec<WKind> = self
@@ -734,6 +746,7 @@ fn base(family: Ty, items: Vec<WKind>) -> C14 {
         r_rewrap_at: None,
         touch: false,
         scribble: false,
+        r_exact: false,
     }
 }
 
@@ -796,7 +809,10 @@ impl Property for P14 {
             for cut in 0..=len {
                 for g in [u32::MAX, 1, 3] {
                     let r_src = if g == u32::MAX { vec![] } else { vec![Step::Xfer(g); len + 2] };
-                    out.push(C14 { cut: Some(cut as u32), r_src, ..base(fam, items.clone()) });
+                    out.push(C14 { cut: Some(cut as u32), r_src: r_src.clone(), ..base(fam, items.clone()) });
+                    // the same cut seen through a source whose read_exact is all-or-nothing, with and without scribbling
+                    out.push(C14 { cut: Some(cut as u32), r_src: r_src.clone(), r_exact: true, ..base(fam, items.clone()) });
+                    out.push(C14 { cut: Some(cut as u32), r_src, r_exact: true, scribble: true, ..base(fam, items.clone()) });
                 }
             }
             // (b) every uniform chunk size, reader and writer side
@@ -1008,6 +1024,7 @@ impl Property for P14 {
             r_rewrap_at: if r.chance(1, 6) { Some(r.below(nitems as u64 + 1) as u32) } else { None },
             touch: r.chance(1, 3),
             scribble: r.chance(1, 3),
+            r_exact: r.chance(1, 3),
         }
     }
 
